@@ -185,7 +185,12 @@ func c16Dial(cfg c16Cfg, faultAt int, fk xport.FaultKind, stopAt int, negative s
 		run.hsTO = long
 	}
 	if cfg.Timeout >= 2 {
-		run.deadline = time.Now().Add(long)
+		ctxLong := long
+		if cfg.Timeout == 3 && !shortTO {
+			// both configured, with different magnitudes: the earlier one governs
+			ctxLong = []time.Duration{3 * time.Hour, 20 * time.Minute}[cfg.RB%2]
+		}
+		run.deadline = time.Now().Add(ctxLong)
 		var cancel func()
 		ctx, cancel = context.WithDeadline(ctx, run.deadline)
 		defer cancel()
